@@ -361,3 +361,24 @@ Proof.
     + destruct u; reflexivity.
     + destruct u; cbn; unfold upd; rewrite ?Nat.eqb_refl; reflexivity.
 Qed.
+
+(* ---- chains of wrappers ---- *)
+Lemma gates_passed_innermost : forall i, In 0 (gates_passed true i).
+Proof. induction i as [|k IH]; cbn [gates_passed]; [left; reflexivity|right; exact IH]. Qed.
+
+(* whatever handles two executions enter through, both hold the innermost gate h0 when they are inside
+   the job: they are two callers of ONE isolated job, to which isolated_mutex / observed_true_rejects
+   apply (any threads, any interleaving) *)
+Lemma chain_common_gate : forall i j,
+  In 0 (gates_passed iso_ctor_wraps_argument i) /\ In 0 (gates_passed iso_ctor_wraps_argument j).
+Proof. intros i j. change iso_ctor_wraps_argument with true. split; apply gates_passed_innermost. Qed.
+
+(* sensitivity: a constructor that looks through an isolated argument gives the two handles of a pair
+   disjoint gate sets: nothing orders an execution through h0 and one through h1 *)
+Lemma unwrapping_ctor_splits_gates :
+  gates_passed false 0 = [0] /\ gates_passed false 1 = [1] /\
+  forall g, In g (gates_passed false 0) -> In g (gates_passed false 1) -> False.
+Proof.
+  split; [reflexivity|]. split; [reflexivity|].
+  cbn. intros g [H0|[]] [H1|[]]. congruence.
+Qed.
